@@ -63,3 +63,71 @@ package v2
 //@   ensures[dlen] err == nil ==> len(e.Data) == le32(buf, 3 + le16(buf, 1))
 //@   ensures[data] err == nil ==> forall i in 0..len(e.Data): e.Data[i] == buf[7+len(e.Key)+i]
 //@   ensures[data_fresh] err == nil && len(e.Data) > 0 ==> fresh(e.Data)
+
+// Round trip, proved from the two contracts only: decoding the encoding of an
+// encodable entry (followed by any suffix) yields the entry and consumes exactly
+// its encoding.
+//@ lemma entry_roundtrip(e: *Entry, d: *Entry, out: []byte, buf: []byte, n: int, err: error)
+//@   property C01
+//@   assume 1 <= len(e.Key) && len(e.Key) <= 65535 && len(e.Data) <= 4294967295
+//@   uses (*Entry).Serialize(e) (out)
+//@   assume prefixof(out, buf)
+//@   uses (*Entry).Deserialize(d, buf) (n, err)
+//@   show[accepted] err == nil
+//@   show[consumed] n == len(out)
+//@   show[op] d.Operation == e.Operation
+//@   show[key] d.Key == e.Key
+//@   show[data] len(d.Data) == len(e.Data) && forall i in 0..len(e.Data): d.Data[i] == e.Data[i]
+
+// Canary: the same statement without the encodability hypothesis must NOT be provable
+// (a 65 536-byte key wraps the 16-bit length) — guards against vacuous hypotheses.
+//@ canary entry_roundtrip_needs_encodable(e: *Entry, d: *Entry, out: []byte, n: int, err: error)
+//@   property C01
+//@   assume len(e.Key) >= 1 && len(e.Data) == 0
+//@   assume len(out) == 7 + len(e.Key) && le16(out, 1) == len(e.Key) % 65536
+//@   uses (*Entry).Deserialize(d, out) (n, err)
+//@   show err == nil && len(d.Key) == len(e.Key)
+
+//@ lemma blockheader_roundtrip(b: *BlockHeader, d: *BlockHeader, out: []byte, buf: []byte, err: error)
+//@   property C01
+//@   uses (*BlockHeader).Serialize(b) (out)
+//@   assume prefixof(out, buf)
+//@   uses (*BlockHeader).Deserialize(d, buf) (err)
+//@   show[accepted] err == nil
+//@   show[fields] d.CompressedSize == b.CompressedSize && d.UncompressedSize == b.UncompressedSize && d.EntryCount == b.EntryCount && d.Checksum == b.Checksum && d.Flags == b.Flags
+
+//@ func (*FileHeader).Serialize(h) (out)
+//@   property C01 C29
+//@   nopanic
+//@   ensures[len] len(out) == 64
+//@   ensures[magic] forall i in 0..4: out[i] == h.Magic[i]
+//@   ensures[version] le16(out, 4) == h.Version
+//@   ensures[flags] le16(out, 6) == h.Flags
+//@   ensures[created] le64(out, 8) == uint64(h.CreatedAt)
+//@   ensures[modified] le64(out, 16) == uint64(h.ModifiedAt)
+//@   ensures[blocksize] le32(out, 24) == h.BlockSize
+//@   ensures[entries] le64(out, 28) == h.EntryCount
+//@   ensures[blocks] le64(out, 36) == h.BlockCount
+//@   ensures[namelen] le16(out, 44) == h.NameLength
+//@   ensures[fresh] fresh(out)
+
+//@ func (*FileHeader).Deserialize(h, buf) (err)
+//@   property C01 C04 C29
+//@   nopanic
+//@   modifies all(h)
+//@   ensures[short] len(buf) < 64 ==> err != nil
+//@   ensures[magic] err == nil ==> buf[0] == 'H' && buf[1] == 'Y' && buf[2] == 'D' && buf[3] == 'R'
+//@   ensures[badmagic] len(buf) >= 64 && !(buf[0] == 'H' && buf[1] == 'Y' && buf[2] == 'D' && buf[3] == 'R') ==> err != nil
+//@   ensures[version] err == nil ==> h.Version == le16(buf, 4) && (h.Version == 2 || h.Version == 3)
+//@   ensures[badversion] len(buf) >= 64 && le16(buf, 4) != 2 && le16(buf, 4) != 3 ==> err != nil
+//@   ensures[accepts] len(buf) >= 64 && buf[0] == 'H' && buf[1] == 'Y' && buf[2] == 'D' && buf[3] == 'R' && (le16(buf, 4) == 2 || le16(buf, 4) == 3) ==> err == nil
+//@   ensures[blocksize] err == nil ==> h.BlockSize == le32(buf, 24)
+//@   ensures[entries] err == nil ==> h.EntryCount == le64(buf, 28)
+//@   ensures[blocks] err == nil ==> h.BlockCount == le64(buf, 36)
+//@   ensures[namelen] err == nil ==> h.NameLength == ite(h.Version == 3, le16(buf, 44), 0)
+//@   ensures[created] err == nil ==> uint64(h.CreatedAt) == le64(buf, 8)
+
+//@ func (*FileHeader).DataStartOffset(h) (off)
+//@   property C01 C29
+//@   nopanic
+//@   ensures[off] off == ite(h.Version == 3, 64 + h.NameLength, 64)
